@@ -390,6 +390,9 @@ func (c *Ctx) c02OnOff() error {
 		"func f() int { m := map[float64]int{}; m[3000000000] = 7; k := float64(3000000000); return m[k] }; y := f(); y",
 		"func f() float64 { z := 0.0; z = -z; w := z - 0; return 1 / w }; y := f(); y",
 		"func f() float64 { z := 0.0; z = -z; z -= 0; v := z + 0; return 1/z + 1/v }; y := f(); y",
+		// empty blocks: jumps over nothing (conditional ones still pop their condition)
+		"func f(x int) int { if x > 10 { }; return x * 2 }; y := f(21); y", "x := 3; if x > 1 { }; x", "func f(x int) int { n := 0; for i := 0; i < x; i++ { if i%2 == 0 { } else { }; n += i }; return n }; y := f(5); y",
+		"func f(x int) int { switch { case x > 1: }; switch x { case 7: default: }; for x > 100 { }; return x + 1 }; y := f(7); y",
 		// the constant of PUSH k; SUB at the ends of the operand's range (the smallest int has no negation)
 		"func f(x float64) float64 { return x - -9223372036854775808 }; y := f(1); y", "func f(x float64) float64 { x -= -9223372036854775808; return x }; y := f(1); y",
 		"func f(x float64) float64 { return x - 9223372036854775807 }; y := f(1); y", "func f(x float64) float64 { return x - -9223372036854775807 }; y := f(1); y",
